@@ -3,6 +3,7 @@
 # License: GNU GPL v2 (see LICENSE file for details).
 
 from typing import Any, Dict
+import io
 import logging
 from ..lingosrc.util import vsprintf, get_keys
 from .decoder import Decoder
@@ -71,7 +72,11 @@ def bitd2bmp(castData: Dict[str, Any], clutData: bytes,
 
 
     if bmp_bpp in get_keys(DECODERS):
-        return DECODERS[bmp_bpp].decode(fdata, bmp_width, bmp_height,
+        decoder = DECODERS[bmp_bpp]
+        # The decoders are shared: drop what a failed decode may have left
+        # in the output buffer
+        decoder.bytesIo = io.BytesIO()
+        return decoder.decode(fdata, bmp_width, bmp_height,
                bmp_padding_w, bmp_padding_h, bmp_palette, clutData)
 
     else:
